@@ -87,12 +87,23 @@ Section S.
       apply negb_true_iff in H2. cbn in E. rewrite H2, N.eqb_refl in E. now injection E.
   Qed.
 
+  (* a value accepted at the top passed validate's required/empty test: it is good as a whole *)
+  Lemma goodb_top_good : forall f x v, goodb_top orc f x = true -> validate_with orc f x = Ok v -> goodb orc f x = true.
+  Proof.
+    intros f x v H E. destruct f; try exact H; destruct x; try exact H; cbn [goodb_top] in H; cbn [goodb].
+    - apply andb_true_iff in H as [H1 H3]. rewrite H1, H3. cbn in E.
+      destruct (req && Net.is_nil l); [discriminate|reflexivity].
+    - apply andb_true_iff in H as [H1 H3]. rewrite H1, H3. cbn in E.
+      destruct (req && Net.is_nil d); [discriminate|reflexivity].
+  Qed.
+
   Theorem cf_validate_sound : forall f x v, cf_validate orc f x = Ok v -> meets orc (fl_fld f) v.
   Proof.
     intros f x v H. unfold cf_validate, input_ok in H.
     destruct (plain x) eqn:P; cbn [orb] in H.
     - eapply validate_sound; eassumption.
-    - destruct (goodb orc (fl_fld f) x) eqn:G; [|discriminate].
+    - destruct (goodb_top orc (fl_fld f) x) eqn:G0; [|discriminate].
+      pose proof (goodb_top_good _ _ _ G0 H) as G.
       rewrite (goodb_fixed _ _ _ G H). now apply goodb_meets.
   Qed.
 
